@@ -26,8 +26,22 @@ func verifNativeParse(text string, subst map[string]string) (*cypher.RegularQuer
 	return q, nil
 }
 
+// shapes the corpus does not contain: empty maps, nil-able parts present and absent, nested
+// lists, every clause kind
+var verifC11Extra = []string{
+	"match (n {}) return n",
+	"match (a)-[r {}]->(b) return r",
+	"create (n {})",
+	"match (n) return {} as m, {k: {}} as deep, [] as l, [[], [1, [2]]] as nested",
+	"match (n) where n.name in ['a', n.other, [1, 2]] return n",
+	"match (n:A:B {a: 1, b: [1, 2], c: {d: 'x'}})-[r:R1|R2*1..3 {w: 1.5}]->(m) where not (n)-[:R3]->() and any(x in n.l where x = 1) return distinct n.a as a, count(m) order by a desc skip 1 limit 2",
+	"match p = shortestPath((a)-[*1..]->(b)) where a.name = 'x' set a.seen = true, b:Seen remove a.old, b:Old with a, b unwind [a, b] as x merge (x)-[:Linked]->(y:K {v: 1}) on create set y.c = 1 on match set y.m = 2 detach delete a",
+}
+
+var verifAllModels = append(append([]string{}, verifC11Extra...), verifCorpus...)
+
 func verifCorpusModel() *cypher.RegularQuery {
-	q, err := verifNativeParse(verifCorpus[verifrt.NondetChoice("corpus query", len(verifCorpus))], nil)
+	q, err := verifNativeParse(verifAllModels[verifrt.NondetChoice("corpus query", len(verifAllModels))], nil)
 	if err != nil {
 		verifrt.Assume(false)
 	}
@@ -173,10 +187,10 @@ func VerifC11Walk() {
 
 // VerifC11Cancel: consume / done / error at any callback of the structural or semantic walk.
 func VerifC11Cancel(from, to int) {
-	if to > len(verifCorpus) {
-		to = len(verifCorpus)
+	if to > len(verifAllModels) {
+		to = len(verifAllModels)
 	}
-	m, perr := verifNativeParse(verifCorpus[from+verifrt.NondetChoice("corpus query", to-from)], nil)
+	m, perr := verifNativeParse(verifAllModels[from+verifrt.NondetChoice("corpus query", to-from)], nil)
 	if perr != nil {
 		return
 	}
